@@ -131,7 +131,7 @@ Definition represents_scalar (t : gty) (g : gval) (v : value) : bool :=
   | VInt z, TyInt k, GInt z' => (z =? z')%Z && in_range k z
   | VInt z, TyBigInt, GBigInt z' => (z =? z')%Z
   | VFloat b, TyF64, GFloat b' => b =? b'
-  | VFloat b, TyF32, GFloat b' => finite_f32_ok b && (b' =? (if f64_is_nan b then f64_sign b * 2 ^ 31 + 2143289344 + (f64_man b / 2 ^ 29) mod 4194304 else narrow b))
+  | VFloat b, TyF32, GFloat b' => finite_f32_ok b && (b' =? narrow b)
   | VDecimal d, TyDecimal, GDecimal d' =>
     (d_coef d =? d_coef d')%Z && (d_exp d =? d_exp d')%Z && Bool.eqb (d_negzero d) (d_negzero d')
   | VTimestamp b, TyTimestamp, GTimestamp b' => list_eqb b b'
@@ -163,4 +163,123 @@ Definition flat_ty (t : gty) : bool :=
   | TyBool | TyInt _ | TyF64 | TyString => true
   | TySlice (TyInt U8) => true
   | _ => false
+  end.
+
+(* ---- the plain sub-universe of the inductive theorems ------------------------------------- *)
+(* well-formed Ion values: a float is 64 bits, lob bytes are bytes; an annotation wrapper is never directly under another *)
+Fixpoint wfv (v : value) : bool :=
+  match v with
+  | VFloat b => b <? 2 ^ 64
+  | VClob b | VBlob b => forallb byte_ok b
+  | VList l | VSexp l => forallb wfv l
+  | VStruct l => forallb (fun kv => wfv (snd kv)) l
+  | VAnn _ x => match x with VAnn _ _ => false | _ => true end && wfv x
+  | _ => true
+  end.
+
+(* nesting depth of a type: the recursion depth of decodeTo on an interface-free type *)
+Fixpoint ty_depth (t : gty) : nat :=
+  match t with
+  | TySlice e | TyArray _ e | TyMap e | TyPtr e => S (ty_depth e)
+  | TyStruct fs => S (fs_depth fs)
+  | _ => O
+  end
+with fs_depth (fs : gfields) : nat :=
+  match fs with
+  | FNil => O
+  | FCons _ _ _ _ ty rest => Nat.max (ty_depth ty) (fs_depth rest)
+  end.
+
+(* plain types: no interface{}, struct fields exported and not embedded (any tag) *)
+Fixpoint pty (t : gty) : bool :=
+  match t with
+  | TyIface => false
+  | TySlice e | TyArray _ e | TyMap e | TyPtr e => pty e
+  | TyStruct fs => pfs fs
+  | _ => true
+  end
+with pfs (fs : gfields) : bool :=
+  match fs with
+  | FNil => true
+  | FCons _ ex emb _ ty rest => ex && negb emb && pty ty && pfs rest
+  end.
+
+(* the outcome the property allows for Unmarshal into a target of type t *)
+Definition safe_out (t : gty) (r : res gval) : Prop :=
+  match r with
+  | Ok g => has_type g t = true
+  | Err => True
+  | Panic => False
+  | OutOfFuel => False
+  end.
+
+(* ---- the documented Marshal mapping as a function Go value -> Ion value (no hints) ------------------ *)
+(* bool -> bool, every integer kind and big.Int -> int, float64 -> float, string -> string,
+   []byte -> blob, slices and arrays -> list, map[string]T -> struct with the keys in sorted
+   order, struct -> struct with one field per Go field named by its tag (or its Go name),
+   Decimal -> decimal, Timestamp -> timestamp, nil slice / map / pointer / []byte -> null,
+   non-nil pointer -> the pointee. *)
+Fixpoint no_comma (t : text) : bool :=
+  match t with [] => true | c :: r => negb (c =? 44) && no_comma r end.
+Definition field_ion_name (name tag : text) : text := match tag with [] => name | _ => tag end.
+
+Fixpoint ion_of (t : gty) (g : gval) {struct g} : value :=
+  match g with
+  | GBool b => VBool b
+  | GInt z => VInt z
+  | GFloat b => VFloat b
+  | GString x => VString x
+  | GBytes None => VNull TNull
+  | GBytes (Some b) => VBlob b
+  | GSlice None => VNull TNull
+  | GSlice (Some l) => VList (map (ion_of (match t with TySlice e => e | _ => t end)) l)
+  | GArr l => VList (map (ion_of (match t with TyArray _ e => e | _ => t end)) l)
+  | GMap None => VNull TNull
+  | GMap (Some m) =>
+    VStruct (map (fun kv => (SymText (fst kv), ion_of (match t with TyMap e => e | _ => t end) (snd kv))) m)
+  | GPtr None => VNull TNull
+  | GPtr (Some x) => ion_of (match t with TyPtr e => e | _ => t end) x
+  | GIface None => VNull TNull
+  | GIface (Some (dt, x)) => ion_of dt x
+  | GStruct l =>
+    VStruct ((fix go (l : list gval) (fs : gfields) {struct l} : list (symv * value) :=
+                match l with
+                | [] => []
+                | x :: r =>
+                  match fs with
+                  | FCons name _ _ tag ty rest => (SymText (field_ion_name name tag), ion_of ty x) :: go r rest
+                  | FNil => []
+                  end
+                end) l (match t with TyStruct fs => fs | _ => FNil end))
+  | GTimestamp b => VTimestamp b
+  | GDecimal d => VDecimal d
+  | GBigInt z => VInt z
+  | GTime b => VTimestamp b
+  | GSymTok _ => VNull TNull
+  end.
+
+(* the round-trip sub-universe: interface-free, float32-free; struct fields exported, not embedded,
+   tagged with a plain name (or untagged): no options, not "-", distinct names; pointers to
+   non-nullable types *)
+Fixpoint ion_names (fs : gfields) : list text :=
+  match fs with FNil => [] | FCons name _ _ tag _ rest => field_ion_name name tag :: ion_names rest end.
+Fixpoint distinct (l : list text) : bool :=
+  match l with [] => true | x :: r => negb (existsb (list_eqb x) r) && distinct r end.
+
+Definition nullable (t : gty) : bool :=
+  match t with TySlice _ | TyMap _ | TyPtr _ | TyIface => true | _ => false end.
+
+Fixpoint rty (t : gty) : bool :=
+  match t with
+  | TyBool | TyInt _ | TyF64 | TyString | TyBigInt | TyDecimal | TyTimestamp => true
+  | TySlice e | TyArray _ e | TyMap e => rty e
+  | TyPtr e => rty e && negb (nullable e)
+  | TyStruct fs => rfs fs && distinct (ion_names fs)
+  | _ => false
+  end
+with rfs (fs : gfields) : bool :=
+  match fs with
+  | FNil => true
+  | FCons _ ex emb tag ty rest =>
+    ex && negb emb && no_comma tag && negb (list_eqb tag [45]) && rty ty && rfs rest
   end.
